@@ -404,6 +404,35 @@ def r3_sequences(report, repo, rule='C02-R3', only_abortable=False):
   okmc = len(rr) == 1 and any(
       isinstance(n, ast.Call) and call_name(n) == 'max'
       for n in ast.walk(rr[0]))
+  if not okmc and len(lib.param_names(mc.node)) == 2:
+    # the other spelling: compare the two codes and return the larger argument
+    pa, pb = lib.param_names(mc.node)
+    bad = []
+
+    def cl_mc(expr, steps):
+      if isinstance(expr, ast.Compare) and len(expr.ops) == 1 and isinstance(
+          expr.ops[0], (ast.Gt, ast.GtE)):
+        l, r = dotted(expr.left), dotted(expr.comparators[0])
+        strict = isinstance(expr.ops[0], ast.Gt)
+        if (l, r) == (pa + '.value', pb + '.value'):
+          return 'a_gt_b' if strict else 'a_ge_b'
+        if (l, r) == (pb + '.value', pa + '.value'):
+          return ('not', 'a_ge_b') if strict else ('not', 'a_gt_b')
+      return None
+
+    def sp_mc(v, p):
+      rv = p.last_return().value if p.end == 'exit' and p.last_return() \
+          else None
+      got = dotted(cfgm.path_resolve(p, rv)) if rv is not None else None
+      want = {pa} if v['a_gt_b'] else ({pb} if not v['a_ge_b'] else {pa, pb})
+      if got not in want:
+        bad.append(got)
+        return 'returns %s, expected the larger of the two (%s)' % (
+            got, sorted(want))
+      return None
+    lib.decision_table(report, rule, mc, ['a_gt_b', 'a_ge_b'], cl_mc, sp_mc,
+                       lambda v: not (v['a_gt_b'] and not v['a_ge_b']))
+    okmc = not bad and bool(rr)
   report.check(okmc, rule, mc.qualname, rr[0] if rr else mc.node, mc.node,
                '_more_critical is the max of the two return codes')
 
